@@ -444,6 +444,21 @@ def mask_application(ctx, rule, qual, branch_body, multi, strict_char_map=True):
                 "each mask character must map the character at the same index of the tail: 'L' keeps it, anything else "
                 "upper-cases *that character* (case-mapping the whole tail first and indexing the result shifts positions "
                 "for characters whose upper case is longer)", facts, ml_)
+    # the buffer the re-cased tail is collected in is a NEW list for every mask (multi-mask branch): created inside the mask loop
+    if multi:
+        mloops = [l for l in branch_body if isinstance(l, ast.For)]
+        if len(mloops) == 1:
+            inside = {id(x) for b_ in mloops[0].body for x in ast.walk(b_)}
+            for n_ in (x for st in branch_body for x in walk_local(st)):
+                if isinstance(n_, ast.Assign) and len(n_.targets) == 1 and U(n_.targets[0]) == 'new_end' and id(n_) not in inside:
+                    ctx.bad(rule, qual, 'the tail buffer is created once for all masks: ' + U(n_), 'every mask starts from an empty tail: created in '
+                            'front of the mask loop, the buffer still holds the previous mask\'s letters - the first mask of a group is right, '
+                            'every later one is glued behind it', facts, n_, firm=True)
+                    return False
+                if isinstance(n_, ast.Assign) and len(n_.targets) == 1 and U(n_.targets[0]) == 'new_end' and not (isinstance(n_.value, ast.List) and not n_.value.elts):
+                    ctx.bad(rule, qual, 'the tail buffer starts as ' + U(n_.value)[:40], 'every mask starts from an EMPTY new list (a list shared with '
+                            'the kept prefix grows with every mask)', facts, n_, firm=True)
+                    return False
     # tail rebuilt per mask, join(start + new_end)
     facts['new_guess'] = loop_assign.get('new_guess')
     if loop_assign.get('new_guess') != ["''.join(start_word + new_end)"] or loop_assign.get('new_end') != ['[]'] or not counter_ok:
